@@ -65,6 +65,19 @@ def parse_out(o):
                  pred=[x.split(":") for x in m.group(5).split(";") if x], check=[x.split(":") for x in m.group(6).split(";") if x],
                  stats=None if m.group(7) == "-" else tuple(int(x) for x in m.group(7).split(",")))
         return f
+    m = re.match(r"would=(\S+) susp=(\S*) exec=(\d+) check=\[(.*?)\] stats=(\S+) blocked=(\d)$", o)
+    if m:
+        wv, wsz, wok = m.group(1).split(",")
+        return dict(kind="suspended", would=wv, wsize=int(wsz), wok=wok == "1", key=m.group(2), execs=int(m.group(3)),
+                    check=[x.split(":") for x in m.group(4).split(";") if x],
+                    stats=None if m.group(5) == "-" else tuple(int(x) for x in m.group(5).split(",")), blocked=m.group(6) == "1")
+    m = re.match(r"ret=(\S*) (\S+) exec=(\d+) pred=\[(.*?)\] check=\[(.*?)\] stats=(\S+)$", o)
+    if m:
+        return dict(kind="resumed", key=m.group(1), ret=m.group(2), execs=int(m.group(3)),
+                    pred=[x.split(":") for x in m.group(4).split(";") if x],
+                    stats=None if m.group(6) == "-" else tuple(int(x) for x in m.group(6).split(",")))
+    if o == "nosuchcall":
+        return dict(kind="nosuchcall")
     if o.startswith("count="):
         return dict(kind="count", n=int(o[6:]))
     if o.startswith("flag="):
@@ -87,6 +100,7 @@ class EpisodeMonitor:
         self.invalidated = set()        # fn idx touched by any invalidation so far
         self.rejected = {}              # (fn, inst, key) -> last execution was rejected by cache_if / Err
         self.events = {}
+        self.suspended = {}             # id -> (fn, key, would value, check-said-stale) of calls suspended in their body
 
     def ev(self, e):
         self.events[e] = self.events.get(e, 0) + 1
@@ -192,6 +206,66 @@ class EpisodeMonitor:
                 if o["stats"] != exp:
                     self.fail("C15", f"call {op}: statistics of {s['name']} are {o['stats']}, expected {exp}")
                 self.called.add(fi)
+        elif p[0] == "begin":
+            cid, fi = int(p[1]), int(p[2])
+            s = self.spec[fi]
+            inst = f"{fi}:g"
+            self.called.add(fi)
+            hit_lookup = (o["kind"] == "call" and o["execs"] == 0) or len(o.get("check", [])) > 0
+            h, m_ = self.stats.get(s["name"], (0, 0))
+            self.stats[s["name"]] = (h + 1, m_) if hit_lookup else (h, m_ + 1)
+            if o["kind"] == "suspended":
+                self.ev("c20-suspended")
+                self.suspended[cid] = (fi, o["key"], o["would"])
+                if o["blocked"]:
+                    self.fail("C20", f"{op}: while the call is suspended at its await a conditional invalidation of the same cache did not complete (a cache lock is held across the await)")
+                # the lookup phase must not create or change any entry
+                if prev is not None:
+                    for lbl, d in dumps.items():
+                        before = prev.get(lbl)
+                        if lbl != inst:
+                            if before != d:
+                                self.fail("C20", f"{op}: suspending the call changed another cache instance {lbl}")
+                        elif d is not None:
+                            bkeys = before[0] if before else {}
+                            new = [k for k in d[0] if k not in bkeys]
+                            changed = [k for k in d[0] if k in bkeys and d[0][k][0] != bkeys[k][0]]
+                            if new or changed:
+                                self.fail("C20", f"{op}: the suspended call left entries it never produced: new {new[:2]} changed {changed[:2]}")
+            else:
+                self.ev("c20-begin-served")
+        elif p[0] == "drop":
+            cid = int(p[1])
+            if cid in self.suspended:
+                self.ev("c20-dropped")
+                fi, key, would = self.suspended.pop(cid)
+                if prev is not None and prev != dumps:
+                    self.fail("C20", f"{op}: dropping the suspended call changed the cache contents")
+                if not self.det:
+                    for lbl, d in dumps.items():
+                        if d and any(v[0] == would for v in d[0].values()):
+                            self.fail("C20", f"{op}: the cache holds the value of a call that was dropped before producing it")
+        elif p[0] == "resume":
+            cid = int(p[1])
+            if cid in self.suspended:
+                self.ev("c20-resumed")
+                fi, key, would = self.suspended.pop(cid)
+                if o["kind"] != "resumed" or o["ret"] != would:
+                    self.fail("C20", f"{op}: the resumed call returned {str(o.get('ret'))[:40]}, its body produced {would[:40]}")
+                s = self.spec[fi]
+                if s["cache_if"] and len(o.get("pred", [])) != 1:
+                    self.fail("C10", f"{op}: cache_if consulted {len(o.get('pred', []))} times for the resumed body execution")
+                inst = f"{fi}:g"
+                if prev is not None:
+                    for lbl, d in dumps.items():
+                        if lbl != inst and prev.get(lbl) != d:
+                            self.fail("C20", f"{op}: resuming the call changed another cache instance {lbl}")
+                # bookkeeping shared with the C09/C10 monitors
+                ci = (o["pred"][0][3] == "1") if o.get("pred") else True
+                stored = ci if s["cache_if"] else True
+                if s["is_result"] and not (s["is_async"] and s["cache_if"]):
+                    stored = stored and (not o["ret"].startswith(HEX_ERR))
+                self.rejected.pop((inst, key), None)
         elif p[0] in ("tag", "event", "dep", "cache"):
             field = {"tag": "tags", "event": "events", "dep": "deps"}.get(p[0])
             targets = [i for i in self.fns if self.has_clear(i) and ((p[1] in self.spec[i][field]) if field else self.spec[i]["name"] == p[1])]
